@@ -12,7 +12,8 @@
 # Environment: COV_DIR (scratch dir, default /tmp/cov, removed at the end unless KEEP=1), JOBS (default 6),
 #   SEED (default 0, as `check`), OUT (report file, default stdout).
 # Binaries get exactly the arguments `check` passes (run_stream): `<bin> <tier> <seed>`; C14 is additionally
-# built and run with `--features parallel` (props.py: parallel: True); c06/c12/c16 come from harness2.
+# built and run with `--features parallel` (props.py: parallel: True); c06/c12/c16 and the extra streams
+# c04x/c10x (props.py: extra_streams; run without VERIF_STREAM_PROP, which only filters output) come from harness2.
 # Nothing under /repo or /verif is written.  Offline only.  Needs the nightly toolchain (llvm-tools).
 set -euo pipefail
 TIER=${1:-thorough}; CAP=${2:-300}
@@ -71,9 +72,10 @@ fi
 EOS
 chmod +x "$COV/capped.sh"
 export COV
+bins() { local b; for b in "$1"/c[0-9][0-9]*; do [[ -f $b && -x $b && $(basename "$b") != *.* ]] && echo "$b"; done; true; }  # c01 .. c20, c04x, c10x, ...
 jobs_list() { # <tier> <cap>
   local t=$1 cap=$2 b
-  for b in "$R1"/c[0-9][0-9] "$R2"/c[0-9][0-9]; do echo "$t-$(basename "$b") $cap $b $t $SEED"; done
+  for b in $(bins "$R1") $(bins "$R2"); do echo "$t-$(basename "$b") $cap $b $t $SEED"; done
   echo "$t-c14par $cap $R1P/c14 $t $SEED"
 }
 run_tier() { # the multi-threaded parallel C14 build runs alone, after the single-threaded ones
@@ -90,7 +92,7 @@ fi
 # ---- merge + export
 "$TOOLS/llvm-profdata" merge -sparse "$COV"/prof/*.profraw -o "$COV/all.profdata"
 OBJS=(); first=1
-for b in "$R1"/c[0-9][0-9] "$R1P/c14" "$R2"/c[0-9][0-9]; do
+for b in $(bins "$R1") "$R1P/c14" $(bins "$R2"); do
   if [ $first = 1 ]; then OBJS+=("$b"); first=0; else OBJS+=(-object "$b"); fi
 done
 SRCS=(/repo/ff/src /repo/ec/src /repo/poly/src /repo/serialize/src)
